@@ -510,8 +510,13 @@ func (c *Cluster) StoredMetadata() (model.ShardMetadata, bool) {
 
 // Write sends a write to the given node through its public RPC surface.
 func (c *Cluster) Write(node string, req *proto.WriteRequest) (*proto.WriteResponse, error) {
-	return call(c, context.Background(), node, "Write", func(n *Node) (*proto.WriteResponse, error) {
-		return n.Srv.Write(context.Background(), req)
+	return c.WriteCtx(context.Background(), node, req)
+}
+
+// WriteCtx is Write with the caller's context (a client that gives up / disconnects).
+func (c *Cluster) WriteCtx(ctx context.Context, node string, req *proto.WriteRequest) (*proto.WriteResponse, error) {
+	return call(c, ctx, node, "Write", func(n *Node) (*proto.WriteResponse, error) {
+		return n.Srv.Write(ctx, req)
 	})
 }
 
